@@ -215,7 +215,7 @@ def anchor_coverage(pid, tier):
 	"""Reporting only (see mc/anchors.py): which anchored line ranges a representative in-process slice of the check executes."""
 	budget = 4 if tier == 'quick' else 20
 	try:
-		r = subprocess.run([sys.executable, '-m', 'mc.anchors', pid, tier, str(budget)], capture_output=True, text=True, timeout=budget * 4 + 60)
+		r = subprocess.run([sys.executable, '-m', 'mc.anchors', pid, tier, str(budget)], capture_output=True, text=True, timeout=budget * 3 + 25)
 		for line in r.stdout.splitlines():
 			if line.startswith('ANCHORS '):
 				return json.loads(line[8:])
